@@ -293,6 +293,26 @@ def fork(ctx):
     z = must_pass(rst, lambda e: e['ev'] == 'store' and canon(e['lhs']) == 'sig_owner_pid' and canon(e.get('rhs')) == '0')
     ctx.ob('R-C10e', 'reset:owner-pid-cleared', bool(z.get((rst.exit, 0))), loc=rst.loc,
            detail='sig_owner_pid = 0: the parent\'s handlers never fire in the child', fn=rst.q)
+    clears = {'process tree': lambda e: e['ev'] == 'store' and canon(e['lhs']) == 'process_sigs.root' and canon(e.get('rhs')) in ('NULL', '0'),
+              'per-signal counts': lambda e: e['ev'] == 'store' and canon(e['lhs']).startswith('total_num_interests[') and canon(e.get('rhs')) == '0'}
+    for what, pred in sorted(clears.items()):
+        ev = [e for e in rst.events() if pred(e)]
+        ctx.ob('R-C10e', 'reset:%s-cleared' % what.replace(' ', '-'), bool(ev), loc=ev[0]['loc'] if ev else rst.loc,
+               detail='the child starts with an empty %s' % what, fn=rst.q)
+    thr = [e for e in rst.events() if e['ev'] == 'store' and last_member(strip(e['lhs']).get('base')) == ('iv_signal_thr_info', 'thr_sigs')
+           and canon(e['lhs']).endswith('.root') and canon(e.get('rhs')) in ('NULL', '0')]
+    # on the "this thread has an area" edge the per-thread tree is emptied on every path
+    okt = False
+    for b, blk in rst.blocks.items():
+        if blk.term and blk.term.get('cond') is not None and len(blk.succ) == 2:
+            for si in (0, 1):
+                for (op, lc, rc, l, r) in norm_cond(blk.term['cond'], si == 0):
+                    if op == '!=' and rc == '0' and strip(l).get('record') == 'iv_signal_thr_info':
+                        mp = must_pass_from_block(rst, blk.succ[si], lambda e: e in thr)
+                        okt = bool(mp.get((rst.exit, 0)))
+    ctx.ob('R-C10e', 'reset:per-thread-tree-cleared', bool(thr) and okt, loc=thr[0]['loc'] if thr else rst.loc,
+           detail='the calling thread\'s own interest tree is emptied too (a child forked from a thread with this-thread interests would '
+                  'otherwise dispatch to the parent\'s stale interests)', fn=rst.q)
     pre, par, chi = prog.fn('iv_signal_prepare'), prog.fn('iv_signal_parent'), prog.fn('iv_signal_child')
     okb = bool(must_pass(pre, lambda e: is_call(e, 'spin_lock_sigmask') and canon(e['args'][0]) == '&sig_lock').get((pre.exit, 0))) \
         and bool(must_pass(par, lambda e: is_call(e, 'spin_unlock_sigmask') and canon(e['args'][0]) == '&sig_lock').get((par.exit, 0))) \
